@@ -6,6 +6,7 @@ import (
 	"math"
 	"math/big"
 	"testing"
+	"time"
 
 	"github.com/peterstace/simplefeatures/geom"
 	"pgregory.net/rapid"
@@ -702,11 +703,12 @@ func c18JitterExact(a, b gm.G, tol float64, far bool) bool {
 
 func TestC18(t *testing.T) {
 	h.Run(t, h.Prop[C18Case]{
-		ID:          "C18",
-		Rule:        "cases = a base geometry A (arbitrary structures over all finite float64 classes, or valid shapes with real rings scaled by 2^k, k from -1066 to 990; members 0..6 incl. duplicate members), B derived from A and C derived from B by one drawn change (identical / one ordinate +-1 ulp / two members or holes swapped / one ring rotated / one line reversed / one member emptied / coordinate type changed / Point<->MultiPoint wrapping / sign of a zero / order-only changes at every level / member dropped or duplicated / XY jitter relative to a tolerance); oracles = WKB equality via the independent writer after -0 -> +0 (no options), brute-force order-insensitive matcher with exact ring simplicity (IgnoreOrder), exact rational distances for the ToleranceXY premises; also reflexivity, symmetry, transitivity on the triple; non-trivial = B differs from A in exactly one respect (anything but 'identical') or A has >= 2 members",
-		Assumptions: []string{"independent WKB writer", "exact rational ring-simplicity test", "closed lines with repeated consecutive vertices or < 4 positions have undefined ring status and are skipped for IgnoreOrder (counted)"},
-		Gen:         c18Gen,
-		Check:       c18Check,
+		ID:              "C18",
+		WholeCheckLimit: 300 * time.Second,
+		Rule:            "cases = a base geometry A (arbitrary structures over all finite float64 classes, or valid shapes with real rings scaled by 2^k, k from -1066 to 990; members 0..6 incl. duplicate members), B derived from A and C derived from B by one drawn change (identical / one ordinate +-1 ulp / two members or holes swapped / one ring rotated / one line reversed / one member emptied / coordinate type changed / Point<->MultiPoint wrapping / sign of a zero / order-only changes at every level / member dropped or duplicated / XY jitter relative to a tolerance); oracles = WKB equality via the independent writer after -0 -> +0 (no options), brute-force order-insensitive matcher with exact ring simplicity (IgnoreOrder), exact rational distances for the ToleranceXY premises; also reflexivity, symmetry, transitivity on the triple; non-trivial = B differs from A in exactly one respect (anything but 'identical') or A has >= 2 members",
+		Assumptions:     []string{"independent WKB writer", "exact rational ring-simplicity test", "closed lines with repeated consecutive vertices or < 4 positions have undefined ring status and are skipped for IgnoreOrder (counted)"},
+		Gen:             c18Gen,
+		Check:           c18Check,
 	})
 }
 
